@@ -341,7 +341,7 @@ func c10(run *ev.Run, tier string) {
 					viol("debsign-callback-bytes", map[string]any{"calls": len(received), "want_len": len(msg)})
 				}
 			}
-			if haveGpgv && i%4 == 0 {
+			if haveGpgv && (i%4 == 0 || tier == "thorough") {
 				if ok, out := gpgVerify(p.SigMember.Data, msg); !ok {
 					viol("debsign-gpg-rejects", map[string]any{"gpg": ev.Short(out, 300)})
 				}
@@ -419,7 +419,7 @@ func c10(run *ev.Run, tier string) {
 					viol("dpkg-sig-callback-bytes", map[string]any{"calls": len(received)})
 				}
 			}
-			if haveGpgv && i%4 == 0 {
+			if haveGpgv && (i%4 == 0 || tier == "thorough") {
 				if ok, out := gpgVerify(p.SigMember.Data, nil); !ok {
 					viol("dpkg-sig-gpg-rejects", map[string]any{"gpg": ev.Short(out, 300)})
 				}
@@ -454,7 +454,7 @@ func c10(run *ev.Run, tier string) {
 					viol("rpm-callback-bytes", map[string]any{"calls": len(received)})
 				}
 			}
-			if haveGpgv && i%4 == 0 {
+			if haveGpgv && (i%4 == 0 || tier == "thorough") {
 				if ok, out := gpgVerify(hdrSig.Bin, hmsg); !ok {
 					viol("rpm-gpg-rejects-header-signature", map[string]any{"gpg": ev.Short(out, 300)})
 				}
